@@ -4,6 +4,7 @@ package pubsub
 
 import (
 	"context"
+	"time"
 
 	pb "github.com/libp2p/go-libp2p-pubsub/pb"
 	"github.com/libp2p/go-libp2p/core/peer"
@@ -156,3 +157,56 @@ func vpH_C05_remote_view() {
 }
 
 var _ = pb.TraceEvent_JOIN
+
+// retry: an announcement that hits a full outbound queue is retried later; the retry re-checks the CURRENT interest
+// (subscriptions AND relays) before resending. At quiescence the observer's view equals the node's interest.
+func vpH_C05_retry() {
+	nd := vpNewNode("self", vpNodeCfg{router: "floodsub", queue: 1})
+	ps := nd.ps
+	ps.eval = make(chan func(), 1) // (buffered so that the retry goroutine can hand its thunk over without a running loop)
+	q := nd.vpAddPeer("obs", FloodSubID, true)
+	byRelay := vpBool("interest_is_a_relay")
+	withdrawBeforeRetry := vpBool("withdrawn_before_retry")
+	observed := false // what the observer has heard last
+	hear := func() {
+		for _, r := range vpDrain(q) {
+			for _, s := range r.GetSubscriptions() {
+				if s.GetTopicid() == vpT0 {
+					observed = s.GetSubscribe()
+				}
+			}
+		}
+	}
+	q.Push(&RPC{}, false) // the queue is full when interest is first announced
+	sub := &Subscription{topic: vpT0, ch: make(chan *Message, 1), ctx: ps.ctx}
+	if byRelay {
+		ps.handleAddRelay(&addRelayReq{topic: vpT0, resp: make(chan RelayCancelFunc, 1)})
+	} else {
+		ps.handleAddSubscription(&addSubReq{sub: sub, resp: make(chan *Subscription, 1)})
+	}
+	hear() // the observer drains the filler RPC; the announcement itself was dropped
+	vpAssert(!observed, "the announcement hit the full queue")
+	interested := true
+	if withdrawBeforeRetry {
+		if byRelay {
+			ps.handleRemoveRelay(vpT0)
+		} else {
+			ps.handleRemoveSubscription(sub)
+		}
+		interested = false
+		hear()
+	}
+	// the retry goroutines run (sleep, then hand a thunk to the event loop), the loop runs the thunks
+	for k := 0; k < 3; k++ {
+		time.Sleep(2 * time.Second) // (natively the retry goroutine sleeps up to a second of jitter)
+		vpFireAll()
+		for len(ps.eval) > 0 {
+			f := <-ps.eval
+			f()
+		}
+		hear()
+	}
+	vpAssert(observed == interested, "after retries the observer's view of the node's interest equals its true interest (subscriptions and relays alike)")
+	vpCover(byRelay && !withdrawBeforeRetry && observed, "relay-only interest announced by a retry")
+	vpCover(withdrawBeforeRetry, "withdrawn before the retry")
+}
